@@ -412,6 +412,13 @@ pub proof fn lemma_seg_cmp_shift(a: Segment, b: Segment, a2: Segment, b2: Segmen
     lemma_circ_shift(a.header.seq, b.header.seq, k);
 }
 
+impl Outgoing {
+//@ item sim/elvis-core/src/protocols/tcp/tcb/outgoing.rs :: impl Outgoing / fn queued_bytes id=Outgoing.queued_bytes mode=sig
+//@ contract
+    // ASSUMED (body not verified: iter().map(closure).sum()): the sum of the text lengths on the retransmission queue
+    ensures r == q_bytes(self.retransmit@),
+//@ end
+}
 impl Transmit {
 //@ item sim/elvis-core/src/protocols/tcp/tcb/outgoing.rs :: impl Transmit / fn new id=Transmit.new
 //@ contract
@@ -432,6 +439,96 @@ pub open spec fn sseg_len(s: Segment) -> int {
 pub open spec fn fully_acked(t: Transmit, snd_una: u32) -> bool {
     !circ_lt(snd_una, add32(t.segment.header.seq, sseg_len(t.segment) as u32))
 }
+
+/// number of data octets on the retransmission queue
+pub open spec fn q_bytes(q: Seq<Transmit>) -> int
+    decreases q.len(),
+{
+    if q.len() == 0 { 0 } else { q_bytes(q.subrange(0, q.len() - 1)) + q.last().segment.text@.len() }
+}
+pub proof fn lemma_q_bytes_push(q: Seq<Transmit>, t: Transmit)
+    ensures q_bytes(q.push(t)) == q_bytes(q) + t.segment.text@.len(),
+{
+    assert(q.push(t).subrange(0, q.push(t).len() - 1) =~= q);
+}
+pub proof fn lemma_q_bytes_nonneg(q: Seq<Transmit>)
+    ensures q_bytes(q) >= 0,
+    decreases q.len(),
+{
+    if q.len() > 0 { lemma_q_bytes_nonneg(q.subrange(0, q.len() - 1)); }
+}
+
+/// q[from..] are data segments that carry `data` in order, numbered consecutively from `seq`
+pub open spec fn rtx_tiles(q: Seq<Transmit>, from: int, seq: u32, data: Seq<u8>) -> bool
+    decreases q.len() - from,
+{
+    if from >= q.len() {
+        data.len() == 0
+    } else {
+        let s = q[from].segment;
+        &&& s.header.seq == seq && s.header.ctl.sack() && !s.header.ctl.ssyn() && !s.header.ctl.sfin() && !s.header.ctl.srst()
+        &&& 0 < s.text@.len() <= data.len() && s.text@ == data.subrange(0, s.text@.len() as int)
+        &&& rtx_tiles(q, from + 1, add32(seq, s.text@.len() as u32), data.subrange(s.text@.len() as int, data.len() as int))
+    }
+}
+/// appending one more data segment at the end extends the tiling
+pub proof fn lemma_rtx_tiles_push(q: Seq<Transmit>, from: int, seq: u32, data: Seq<u8>, t: Transmit, more: Seq<u8>)
+    requires
+        0 <= from <= q.len(), rtx_tiles(q, from, seq, data),
+        t.segment.header.seq == add32(seq, data.len() as u32), t.segment.header.ctl.sack(), !t.segment.header.ctl.ssyn(),
+        !t.segment.header.ctl.sfin(), !t.segment.header.ctl.srst(), t.segment.text@ == more, more.len() > 0,
+        data.len() + more.len() <= 0xffff_ffff,
+    ensures rtx_tiles(q.push(t), from, seq, data + more),
+    decreases q.len() - from,
+{
+    let q2 = q.push(t);
+    if from >= q.len() {
+        assert(data.len() == 0);
+        assert(data + more =~= more);
+        assert(q2[from] == t);
+        assert(more.subrange(0, more.len() as int) =~= more);
+        assert(more.subrange(more.len() as int, more.len() as int) =~= Seq::<u8>::empty());
+        assert(rtx_tiles(q2, from + 1, add32(seq, more.len() as u32), Seq::<u8>::empty()));
+    } else {
+        let s = q[from].segment;
+        let l = s.text@.len() as int;
+        assert(q2[from] == q[from]);
+        lemma_rtx_tiles_push(q, from + 1, add32(seq, l as u32), data.subrange(l, data.len() as int), t, more);
+        assert((data + more).subrange(0, l) =~= data.subrange(0, l));
+        assert((data + more).subrange(l, (data + more).len() as int) =~= data.subrange(l, data.len() as int) + more);
+        assert(add32(add32(seq, l as u32), (data.len() - l) as u32) == add32(seq, data.len() as u32));
+    }
+}
+
+/// the tiling only looks at the segments, not at the needs_transmit marks
+pub proof fn lemma_rtx_tiles_same(a: Seq<Transmit>, b: Seq<Transmit>, from: int, seq: u32, data: Seq<u8>)
+    requires same_segments(a, b), rtx_tiles(a, from, seq, data), 0 <= from,
+    ensures rtx_tiles(b, from, seq, data),
+    decreases a.len() - from,
+{
+    if from < a.len() {
+        let l = a[from].segment.text@.len() as int;
+        assert(a[from].segment == b[from].segment);
+        lemma_rtx_tiles_same(a, b, from + 1, add32(seq, l as u32), data.subrange(l, data.len() as int));
+    }
+}
+
+/// two queues hold the same segments (they may differ in the needs_transmit marks)
+pub open spec fn same_segments(a: Seq<Transmit>, b: Seq<Transmit>) -> bool {
+    a.len() == b.len() && forall|i: int| 0 <= i < a.len() ==> (#[trigger] a[i]).segment == b[i].segment
+}
+
+/// derive(Clone) on Segment: field-wise clone (header is Copy, Message::clone shares the chunks). ASSUMED.
+#[verifier::external_body]
+pub fn vx_segment_clone(s: &Segment) -> (r: Segment)
+    ensures r == *s,
+{ Segment { header: s.header, text: s.text.clone() } }
+
+/// what mem::take leaves behind for a Vec is the empty vector (ASSUMED; Vec::default())
+#[verifier::external_body]
+pub broadcast proof fn axiom_vec_default<T>(v: Vec<T>)
+    ensures #[trigger] is_default(v) ==> v@.len() == 0,
+{}
 
 /// invariant of the transmission control block
 pub open spec fn tcb_inv(t: Tcb) -> bool {
@@ -684,6 +781,121 @@ impl Tcb {
 //@ item sim/elvis-core/src/protocols/tcp/tcb.rs :: impl Tcb / fn status id=Tcb.status
 //@ contract
     ensures r == self.state,
+//@ end
+
+//@ item sim/elvis-core/src/protocols/tcp/tcb.rs :: impl Tcb / fn segments id=Tcb.segments
+//@ rewrite `let mut out: Vec<_> = mem::take\(&mut self\.outgoing\.oneshot\)\s*\.into_iter\(\)\s*\.map\(\|header\| Segment::new\(header, Default::default\(\)\)\)\s*\.collect\(\);` => `let mut out: Vec<Segment> = Vec::new(); let vx_hs = mem::take(&mut self.outgoing.oneshot); let mut vx_i: usize = 0; while vx_i < vx_hs.len() invariant vx_i <= vx_hs.len(), out@.len() == vx_i, forall|j: int| 0 <= j < out@.len() ==> (#[trigger] out@[j]).text@.len() == 0 && out@[j].text.wf(), decreases vx_hs.len() - vx_i, { out.push(Segment::new(vx_hs[vx_i], Message::default())); vx_i += 1; }` ## into_iter().map(closure).collect() is outside Verus: expressed as the equivalent loop
+//@ rewrite `for transmit in self\.outgoing\.retransmit\.iter_mut\(\) \{` => `let mut vx_k: usize = 0; while vx_k < self.outgoing.retransmit.len() { let transmit = &mut self.outgoing.retransmit[vx_k]; vx_k += 1;` ## VecDeque::iter_mut is outside Verus: expressed as an index loop (assumes iter_mut visits front to back once)
+//@ rewrite `transmit\.segment\.clone\(\)` => `vx_segment_clone(&transmit.segment)` ## derived Clone has no Verus spec; routed through the contract-carrying wrapper
+//@ rewrite `pub fn segments\(` => `#[verifier::spinoff_prover] #[verifier::rlimit(200)] pub fn segments(` ## verifier attributes only
+//@ start
+        broadcast use {lemma_with_flag_b, lemma_zero_flags, axiom_vec_default};
+        let ghost text0 = self.outgoing.text@;
+        let ghost rtx0 = self.outgoing.retransmit@;
+        let ghost nxt0 = self.snd.nxt;
+        proof { reveal(rtx_wf); lemma_q_bytes_nonneg(rtx0); }
+//@ contract
+    requires tcb_inv(*old(self)), old(self).mtu >= 100,
+    ensures
+        tcb_inv(*final(self)),   //# invariant_preserved [C17]
+        final(self).id == old(self).id && final(self).mtu == old(self).mtu && final(self).initiation == old(self).initiation
+            && final(self).state == old(self).state && final(self).rcv == old(self).rcv && final(self).incoming == old(self).incoming
+            && final(self).snd.una == old(self).snd.una && final(self).snd.wnd == old(self).snd.wnd && final(self).snd.iss == old(self).snd.iss
+            && final(self).timeouts.time_wait == old(self).timeouts.time_wait,   //# frame [C17,C03]
+        old(self).outgoing.text@.len() >= final(self).outgoing.text@.len(),
+        // (C17) new data is emitted only as far as the window the peer last advertised has room for it
+        (old(self).outgoing.text@.len() - final(self).outgoing.text@.len()) > 0 ==>
+            q_bytes(old(self).outgoing.retransmit@) + (old(self).outgoing.text@.len() - final(self).outgoing.text@.len()) <= old(self).snd.wnd,   //# new_data_stays_inside_send_window [C17]
+        // (C01) new data segments carry the submitted stream in order, numbered consecutively from SND.NXT
+        final(self).outgoing.text@ == old(self).outgoing.text@.subrange(old(self).outgoing.text@.len() - final(self).outgoing.text@.len(), old(self).outgoing.text@.len() as int),   //# unsent_text_is_the_remaining_suffix [C01]
+        final(self).snd.nxt == add32(old(self).snd.nxt, (old(self).outgoing.text@.len() - final(self).outgoing.text@.len()) as u32),   //# snd_nxt_advances_by_the_new_data [C01,C12]
+        final(self).outgoing.retransmit@.len() >= old(self).outgoing.retransmit@.len(),
+        same_segments(final(self).outgoing.retransmit@.subrange(0, old(self).outgoing.retransmit@.len() as int), old(self).outgoing.retransmit@),   //# queued_segments_untouched [C01]
+        rtx_tiles(final(self).outgoing.retransmit@, old(self).outgoing.retransmit@.len() as int, old(self).snd.nxt,
+            old(self).outgoing.text@.subrange(0, old(self).outgoing.text@.len() - final(self).outgoing.text@.len())),   //# new_segments_carry_the_stream_in_order [C01]
+        // data is only segmentized in the states that may send
+        !(old(self).state == State::SynSent || old(self).state == State::SynReceived || old(self).state == State::Established || old(self).state == State::CloseWait)
+            ==> final(self).outgoing.text@.len() == old(self).outgoing.text@.len(),   //# no_new_data_after_close [C03,C01]
+        // everything on the retransmission queue has been handed out: nothing is marked for transmission any more
+        forall|i: int| 0 <= i < final(self).outgoing.retransmit@.len() ==> !(#[trigger] final(self).outgoing.retransmit@[i]).needs_transmit,
+        final(self).outgoing.oneshot@.len() == 0,
+        // every data-bearing segment handed to the network is one of the queued (stream-consistent) segments
+        forall|j: int| 0 <= j < r@.len() && (#[trigger] r@[j]).text@.len() > 0 ==>
+            exists|i: int| 0 <= i < final(self).outgoing.retransmit@.len() && final(self).outgoing.retransmit@[i].segment == r@[j],   //# only_queued_segments_are_sent [C01]
+//@ loop 2
+                    invariant
+                        tcb_inv(*self), self.mtu == old(self).mtu, self.mtu >= 100, max_segment_length == self.mtu - 50,
+                        self.id == old(self).id && self.initiation == old(self).initiation && self.state == old(self).state && self.rcv == old(self).rcv
+                            && self.incoming == old(self).incoming && self.snd.una == old(self).snd.una && self.snd.wnd == old(self).snd.wnd
+                            && self.snd.iss == old(self).snd.iss && self.timeouts == old(self).timeouts,
+                        self.outgoing.oneshot@.len() == 0,
+                        queued_bytes == q_bytes(self.outgoing.retransmit@),
+                        text0.len() >= self.outgoing.text@.len(),
+                        self.outgoing.text@ == text0.subrange(text0.len() - self.outgoing.text@.len(), text0.len() as int),
+                        self.snd.nxt == add32(nxt0, (text0.len() - self.outgoing.text@.len()) as u32),
+                        self.outgoing.retransmit@.len() >= rtx0.len(),
+                        self.outgoing.retransmit@.subrange(0, rtx0.len() as int) == rtx0,
+                        rtx_tiles(self.outgoing.retransmit@, rtx0.len() as int, nxt0, text0.subrange(0, text0.len() - self.outgoing.text@.len())),
+                        (text0.len() - self.outgoing.text@.len()) > 0 ==> q_bytes(rtx0) + (text0.len() - self.outgoing.text@.len()) <= self.snd.wnd,
+                        q_bytes(self.outgoing.retransmit@) == q_bytes(rtx0) + (text0.len() - self.outgoing.text@.len()),
+                        text0.len() - self.outgoing.text@.len() <= 65535,
+                        q_bytes(rtx0) >= 0, rtx_wf(rtx0),
+                    decreases self.outgoing.text@.len(),
+//@ before 1 `let text = self.outgoing.text.cut(bytes);`
+                    broadcast use {lemma_with_flag_b, lemma_zero_flags};
+                    let ghost q_before = self.outgoing.retransmit@;
+                    let ghost cur_before = self.outgoing.text@;
+                    let ghost done_before = text0.len() - cur_before.len();
+//@ after 1 `.push_back(Transmit::new(Segment::new(header, text)));`
+                    proof {
+                        reveal(rtx_wf);
+                        let t = self.outgoing.retransmit@.last();
+                        let more = t.segment.text@;
+                        assert(self.outgoing.retransmit@ =~= q_before.push(t));
+                        lemma_q_bytes_push(q_before, t);
+                        lemma_rtx_tiles_push(q_before, rtx0.len() as int, nxt0, text0.subrange(0, done_before), t, more);
+                        assert(more == cur_before.subrange(0, bytes as int));
+                        assert(text0.subrange(0, done_before) + more =~= text0.subrange(0, done_before + bytes));
+                        assert(self.outgoing.text@ =~= text0.subrange(text0.len() - self.outgoing.text@.len(), text0.len() as int));
+                        assert(self.outgoing.retransmit@.subrange(0, rtx0.len() as int) =~= rtx0);
+                        assert(add32(add32(nxt0, done_before as u32), bytes as u32) == add32(nxt0, (done_before + bytes) as u32));
+                    }
+//@ before 1 `let mut vx_k: usize = 0;`
+        let ghost mid = *self;
+        let ghost out0 = out@;
+//@ before 1 `if !out.is_empty()`
+        proof {
+            let n0 = rtx0.len() as int;
+            let nb = text0.len() - mid.outgoing.text@.len();
+            lemma_rtx_tiles_same(mid.outgoing.retransmit@, self.outgoing.retransmit@, n0, nxt0, text0.subrange(0, nb));
+            assert(same_segments(self.outgoing.retransmit@.subrange(0, n0), rtx0)) by {
+                assert forall|i: int| 0 <= i < n0 implies (#[trigger] self.outgoing.retransmit@.subrange(0, n0)[i]).segment == rtx0[i].segment by {
+                    assert(self.outgoing.retransmit@[i].segment == mid.outgoing.retransmit@[i].segment);
+                    assert(mid.outgoing.retransmit@.subrange(0, n0)[i] == rtx0[i]);
+                }
+            }
+            assert forall|j: int| 0 <= j < out@.len() && (#[trigger] out@[j]).text@.len() > 0 implies
+                exists|i: int| 0 <= i < self.outgoing.retransmit@.len() && self.outgoing.retransmit@[i].segment == out@[j] by {
+                if j < out0.len() { assert(out@[j] == out0[j]); assert(out0[j].text@.len() == 0); }
+                assert(j >= out0.len());
+                let i = choose|i: int| 0 <= i < mid.outgoing.retransmit@.len() && mid.outgoing.retransmit@[i].segment == out@[j];
+                assert(self.outgoing.retransmit@[i].segment == mid.outgoing.retransmit@[i].segment);
+            }
+            reveal(rtx_wf);
+        }
+//@ loop 3
+            invariant
+                vx_k <= self.outgoing.retransmit@.len(),
+                self.id == mid.id && self.mtu == mid.mtu && self.initiation == mid.initiation && self.state == mid.state && self.snd == mid.snd
+                    && self.rcv == mid.rcv && self.incoming == mid.incoming && self.timeouts == mid.timeouts
+                    && self.outgoing.text == mid.outgoing.text && self.outgoing.oneshot == mid.outgoing.oneshot,
+                same_segments(self.outgoing.retransmit@, mid.outgoing.retransmit@),
+                forall|i: int| 0 <= i < vx_k ==> !(#[trigger] self.outgoing.retransmit@[i]).needs_transmit,
+                out@.len() >= out0.len(),
+                forall|j: int| 0 <= j < out0.len() ==> out@[j] == out0[j],
+                forall|j: int| 0 <= j < out0.len() ==> (#[trigger] out0[j]).text@.len() == 0,
+                forall|j: int| out0.len() <= j < out@.len() ==> exists|i: int| 0 <= i < mid.outgoing.retransmit@.len() && mid.outgoing.retransmit@[i].segment == #[trigger] out@[j],
+            decreases self.outgoing.retransmit@.len() - vx_k,
 //@ end
 
 //@ item sim/elvis-core/src/protocols/tcp/tcb.rs :: impl Tcb / fn process_segment id=Tcb.process_segment
